@@ -402,7 +402,7 @@ func engineStatic(which string) engineFn {
 				size = 200 + g.r.Intn(800) // many rows: result slices are re-allocated while being built
 			}
 			if which == "C03" {
-				g.glueP = 0.35
+				g.glueP = 0.6
 			}
 			f := g.wellFormed(size)
 			inherit := g.coin(0.5)
